@@ -83,5 +83,9 @@ Definition oracle_c08 (code : Z) (ps : list Z) (vs outs : list (list Z)) : Z :=
   | 8108 => vec_oracle ps vs outs (p ps 10) (p ps 10) (- p ps 11) 0 1 true false
   | 8109 => vec_oracle ps vs outs (p ps 10) (p ps 10) (- p ps 11) 1 1 false false
   | 8110 => vec_oracle ps vs outs (p ps 10) (p ps 10) (- p ps 11) 1 (-1) false false
+  | 8201 => vec_oracle ps vs outs (p ps 10) (p ps 11) (p ps 12) 0 1 (p ps 10 =? p ps 11) false
+  | 8202 => vec_oracle ps vs outs (p ps 10) (p ps 11) (p ps 12) 1 1 false false
+  | 8203 => vec_oracle ps vs outs (p ps 10) (p ps 11) (p ps 12) 1 (-1) false false
+  | 8204 => vec_oracle ps vs outs (p ps 10) (p ps 11) (p ps 12) 0 (-1) false false
   | _ => 2
   end.
